@@ -98,6 +98,7 @@ C_DEFINES = [
     ("src/core/pp.c", "FMT_FLAGS"),
     ("src/core/pp.c", "FMT_REPLACE_INTTYPES"),
     ("src/core/pp.c", "MAX_FORMAT"),
+    ("src/core/pp.c", "MAX_ITEM"),
 ]
 
 # boot.janet definitions (defn / defn- / defmacro / defmacro-)
